@@ -23,7 +23,9 @@ CONSTANTS Conn, Ident, MaxAtt, Weak,
           Proofs,     \* slice of {"right","wrong","missing","nilkey"}; nilkey = the proof anybody can compute for an SRP
                       \* session whose key was never set (K = empty string)
           Seals,      \* slice of {"this","other","zero","random","nilkey"}; nilkey = HKDF of an empty secret
-          Bodies,     \* slice of {"genuine","badsig","mismatch","badtlv"}
+          Bodies,     \* slice of {"genuine","badsig","mismatch","badtlv","smallorder"}; smallorder = the public key is the
+                      \* neutral element of the curve and the signature is (neutral element, 0): Ed25519 verification as
+                      \* implemented (no small-order check) accepts it for EVERY message, so it needs no knowledge of S
           Shapes      \* slice of {"ok","tagflip","ctflip","short","empty"}
 
 VARIABLES step,    \* [Conn -> {"Waiting","StartResp","VerifyResp","Done"}]
@@ -88,7 +90,8 @@ Verify(c, A, proof) ==
                   /\ K' = [K EXCEPT ![c] = n] /\ pS' = [pS EXCEPT ![c] = n]
                   /\ proved' = [proved EXCEPT ![c] = TRUE]
                   /\ Reply(c, m, "M4proof")
-             ELSE /\ Reset(c) /\ Reply(c, m, "M4err2")
+             ELSE /\ step' = [step EXCEPT ![c] = IF Guard("wrong_proof_resets") THEN "Waiting" ELSE "VerifyResp"]
+                  /\ Reply(c, m, "M4err2")
                   /\ UNCHANGED <<K, pS, proved>>
           /\ UNCHANGED store
 
@@ -104,6 +107,7 @@ Opens(c, seal, shape) ==
         \/ seal = "nilkey" /\ K[c] = Deg
 \* the signature covers HKDF(S): it verifies when the peer signed with the secret the server holds
 SigOK(c, seal, body) ==
+  \/ body = "smallorder"
   \/ body = "genuine" /\ S[c] = (IF seal = "this" THEN pS[c] ELSE 0)
   \/ body \in {"badsig", "mismatch"} /\ ~Guard("signature_checked")
 
@@ -140,7 +144,7 @@ Spec == Init /\ [][Next]_vars
 \* a proof accepted in the current exchange on the same connection, and then by exactly that identity
 StoreRuleP(st, st2, m, prv) ==
   IF st2 # st
-  THEN m.t = "Kex" /\ m.seal = "this" /\ m.body = "genuine" /\ m.shape = "ok" /\ prv /\ st2 = st \cup {m.id}
+  THEN m.t = "Kex" /\ m.seal = "this" /\ m.body \in {"genuine", "smallorder"} /\ m.shape = "ok" /\ prv /\ st2 = st \cup {m.id}
   ELSE TRUE
 
 StoreRule == [][ StoreRuleP(store, store', last'.m, IF last'.c \in Conn THEN proved[last'.c] ELSE FALSE) ]_vars
